@@ -194,6 +194,9 @@ package derive
 
 //@ func union(this, that map[string]struct{}) (r map[string]struct{})
 //@ assigns nothing
+// union adds to its first argument in place: callers must own the map they pass (made by themselves)
+//@ mutates-arg: this
+//@ ensures final(this) == r
 //@ ensures forall k string :: (k in r) <==> (k in this || k in that)
 //@ ensures r != nil <==> (this != nil || len(that) > 0)
 //@ requires this != nil
